@@ -22,11 +22,13 @@ import (
 	"encoding/json"
 	"fmt"
 	"os"
+	"os/signal"
 	"path/filepath"
 	"regexp"
 	"sort"
 	"strings"
 	"sync"
+	"syscall"
 	"time"
 
 	"verifh/common"
@@ -159,7 +161,10 @@ func evaluate(S Scenario, o Obs, evs []event) []violation {
 		add("C17:stop-not-returned", "%d of %d Stop calls returned", o.StopsReturned, S.Stops)
 	}
 	// (2) Run's report
-	if o.RunCalled {
+	if o.RunCalled && o.RunClass == "runaway" {
+		// an endless archetype passed runawayLimit label boundaries while every Stop caller was parked inside Stop
+		add("C17:run-ignores-stop-request", "Run kept executing sections although every Stop caller had been waiting inside Stop for 2000 label boundaries")
+	} else if o.RunCalled {
 		want := expectedRun(S, o)
 		if o.RunClass != want {
 			add(fmt.Sprintf("C17:run-result:%s:want-%s:got-%s", S.End, keyPart(want), keyPart(o.RunClass)), "Run reported %q, expected %q", o.RunClass, want)
@@ -282,6 +287,7 @@ func (rn *runner) runBatch(batchNo int, scs []Scenario, exe string, race bool) {
 		byID[s.ID] = s
 	}
 	first := 0
+	fruitless := 0
 	var outs []outcome
 	for first < len(scs) {
 		os.Remove(outFile)
@@ -309,6 +315,7 @@ func (rn *runner) runBatch(batchNo int, scs []Scenario, exe string, race bool) {
 		evs := map[int][]event{}
 		inflight, inflightIdx := -1, -1
 		done := 0
+		recycleNext := -1
 		for _, rec := range recs {
 			switch rec["kind"] {
 			case "begin":
@@ -317,6 +324,18 @@ func (rn *runner) runBatch(batchNo int, scs []Scenario, exe string, race bool) {
 			case "ev":
 				id := int(rec["id"].(float64))
 				evs[id] = append(evs[id], event{Seq: int64(rec["seq"].(float64)), Ev: fmt.Sprint(rec["ev"]), Who: fmt.Sprint(rec["who"])})
+			case "recycle":
+				recycleNext = int(rec["next"].(float64))
+			case "deadlock":
+				id := int(rec["id"].(float64))
+				dump := fmt.Sprint(rec["dump"])
+				sh := deadlockShape(dump)
+				if len(dump) > 60000 {
+					dump = dump[:60000]
+				}
+				outs = append(outs, outcome{S: byID[id], Events: evs[id], Fatal: "deadlock", Dump: dump, Shape: &sh})
+				inflight = -1
+				done++
 			case "result":
 				b, _ := json.Marshal(rec)
 				var o Obs
@@ -330,18 +349,38 @@ func (rn *runner) runBatch(batchNo int, scs []Scenario, exe string, race bool) {
 		if complete {
 			break
 		}
-		if inflight < 0 {
-			// died between scenarios (or before the first): not attributable; retry once from the next index, else give up
-			rn.r.Inconclusive(fmt.Sprintf("batch %d: child ended without result or scenario in flight (exit %d): %s", batchNo, res.ExitCode, tailOf(res.Output, 300)))
-			first += done + 1
+		if recycleNext >= 0 && inflight < 0 {
+			first = recycleNext
 			continue
 		}
+		if inflight < 0 {
+			// died between scenarios, or never started (fork failure on an overloaded machine): not attributable to the
+			// code under test; try again from where it stopped, give one scenario up after three fruitless attempts
+			first += done
+			if done > 0 {
+				fruitless = 0
+				continue
+			}
+			fruitless++
+			if fruitless < 3 {
+				time.Sleep(time.Duration(fruitless) * time.Second)
+				continue
+			}
+			fruitless = 0
+			rn.r.Inconclusive(fmt.Sprintf("batch %d: child ended three times without result or scenario in flight (exit %d): %s", batchNo, res.ExitCode, tailOf(res.Output, 300)))
+			first++
+			continue
+		}
+		fruitless = 0
 		oc := outcome{S: byID[inflight], Events: evs[inflight], ExitCode: res.ExitCode}
 		switch {
 		case strings.Contains(res.Output, "fatal error: all goroutines are asleep - deadlock!"):
 			oc.Fatal = "deadlock"
 			i := strings.Index(res.Output, "fatal error: all goroutines are asleep")
 			oc.Dump = res.Output[i:]
+		case strings.Contains(res.Output, "LOGICAL-DEADLOCK:"):
+			oc.Fatal = "deadlock"
+			oc.Dump = res.Output[strings.Index(res.Output, "LOGICAL-DEADLOCK:"):]
 		case strings.Contains(res.Output, "STALL-DUMP"):
 			oc.Fatal = "stall"
 			oc.Dump = res.Output[strings.Index(res.Output, "STALL-DUMP"):]
@@ -421,6 +460,13 @@ func main() {
 	r := common.Start("C17", "fault_enumeration")
 	dir := common.Scratch("c17")
 	defer os.RemoveAll(dir)
+	sigc := make(chan os.Signal, 1)
+	signal.Notify(sigc, syscall.SIGINT, syscall.SIGTERM)
+	go func() {
+		<-sigc
+		os.RemoveAll(dir)
+		os.Exit(3)
+	}()
 	rn := &runner{r: r, dir: dir}
 	exe, _ := os.Executable()
 	raceExe := os.Getenv("VERIF_RACE_BIN")
@@ -431,7 +477,14 @@ func main() {
 	}
 
 	// ---- the scenario lists
-	det := enumerateDet(smallMixes, []string{"none", "after"}, false)
+	// the statement's product (second Run = none) is enumerated completely for every small mix in both tiers; the
+	// second-Run dimension is the harness's own addition: quick covers it for three mixes, thorough for all
+	det := enumerateDet(smallMixes, []string{"none"}, false)
+	if r.Quick() {
+		det = append(det, enumerateDet([]string{"locals", "incmap2", "hashmap"}, []string{"after"}, false)...)
+	} else {
+		det = append(det, enumerateDet(smallMixes, []string{"after"}, false)...)
+	}
 	det = append(det, enumerateDet([]string{"locals", "incmap2"}, []string{"during"}, false)...)
 	var real []Scenario
 	if !r.Quick() {
@@ -476,9 +529,9 @@ func main() {
 		}
 	}
 	split(real, 4, exe, false) // slow ones first
-	split(jitRace, 48, raceExe, true)
-	split(det, 60, exe, false)
-	split(jitPlain, 96, exe, false)
+	split(jitRace, 64, raceExe, true)
+	split(det, 150, exe, false)
+	split(jitPlain, 128, exe, false)
 	common.Parallel(len(batches), r.Pick(8, 14), func(i int) {
 		rn.runBatch(i, batches[i].scs, batches[i].exe, batches[i].race)
 	})
@@ -493,6 +546,7 @@ func main() {
 	landing := map[string]int{}
 	startedN, stopsReturned, closesCounted := 0, 0, 0
 	viol := map[string]int{}
+	deadlockWhere := map[string]int{}
 	sort.Slice(rn.outcomes, func(i, j int) bool { return rn.outcomes[i].S.ID < rn.outcomes[j].S.ID })
 	for _, oc := range rn.outcomes {
 		S := oc.S
@@ -504,9 +558,19 @@ func main() {
 			case oc.Fatal == "deadlock" || (oc.Fatal != "crash" && oc.Shape != nil && oc.Shape.Cycle):
 				key := oc.Shape.key()
 				viol[key]++
+				endKind := "run-ends-by-itself"
+				if S.End == "stop" {
+					endKind = "endless"
+				}
+				deadlockWhere[fmt.Sprintf("%s/%s/stops=%d/%s/cleanup=%s", S.Mode, endKind, S.Stops, S.Timing, S.Cleanup)]++
 				r.Report(key, fmt.Sprintf("Run/Stop never return: Stop callers blocked at %v, Run at %v (%s; detected by: %s) [%s]",
-					oc.Shape.AllStop, oc.Shape.AllRun, map[bool]string{true: "structural wait-for cycle", false: "Go runtime: all goroutines asleep"}[oc.Fatal != "deadlock"], oc.Fatal, S.sig()),
+					oc.Shape.AllStop, oc.Shape.AllRun, map[bool]string{true: "structural wait-for cycle", false: "all goroutines asleep in a timer-free child"}[oc.Fatal != "deadlock"], oc.Fatal, S.sig()),
 					map[string]any{"scenario": S, "events": oc.Events, "shape": oc.Shape, "goroutine_dump": oc.Dump})
+			case oc.Fatal == "stall" && nestedBoundaries(oc.Dump) >= nestedLimit:
+				key := "C17:nested-context-not-stopped-by-close"
+				viol[key]++
+				r.Report(key, fmt.Sprintf("the outer run's cleanup is stuck in the nested resource's Close while the nested context passed %d label boundaries without being stopped [%s]", nestedBoundaries(oc.Dump), S.sig()),
+					map[string]any{"scenario": S, "events": oc.Events, "goroutine_dump": oc.Dump})
 			case oc.Fatal == "crash":
 				key := "C17:child-crashed:" + keyPart(crashLine(oc.Dump))
 				viol[key]++
@@ -521,6 +585,10 @@ func main() {
 			continue
 		}
 		o := *oc.Obs
+		if S.Mode == "jit" && o.RunClass == "runaway" {
+			r.Inconclusive("jit: endless archetype passed 2M label boundaries after the Stop callers announced their call (callers possibly descheduled): " + S.sig())
+			continue
+		}
 		if o.GateMissed != "" {
 			r.Inconclusive("gate " + o.GateMissed + " not reached: " + S.sig())
 			continue
@@ -570,6 +638,7 @@ func main() {
 		}
 	}
 
+	os.RemoveAll(dir)
 	r.Finish(common.Coverage{
 		Evaluations:        evals,
 		DistinctNontrivial: distinct.Len(),
@@ -579,21 +648,22 @@ func main() {
 		Exhaustive: true,
 		Floor:      r.Pick(500, 800),
 		Extra: map[string]any{
-			"det_scenarios_enumerated":    len(det) + len(real),
-			"jit_scenarios":               len(jitPlain),
-			"jit_scenarios_under_race":    len(jitRace),
-			"scenarios_by_mode_and_mix":   byMode,
-			"child_processes":             rn.children,
-			"runs_started":                startedN,
-			"stop_calls_returned":         stopsReturned,
-			"resource_instances_counted":  closesCounted,
-			"process_fatal_outcomes":      fatals,
-			"jit_first_stop_landed":       landing,
-			"violations_by_key_all":       viol,
-			"race_reports":                len(rn.races),
-			"race_signatures":             raceSigs,
-			"exhaustive_scope":            "the det product over the small mixes (all combinations listed in the header); jit repetitions and real-resource mixes are samples",
-			"nontermination_decided_by":   "Go runtime deadlock abort in timer-free children; structural wait-for cycle in the dump for tcp/fd/nested mixes; watchdog alone = inconclusive",
+			"det_scenarios_enumerated":   len(det) + len(real),
+			"jit_scenarios":              len(jitPlain),
+			"jit_scenarios_under_race":   len(jitRace),
+			"scenarios_by_mode_and_mix":  byMode,
+			"child_processes":            rn.children,
+			"runs_started":               startedN,
+			"stop_calls_returned":        stopsReturned,
+			"resource_instances_counted": closesCounted,
+			"process_fatal_outcomes":     fatals,
+			"jit_first_stop_landed":      landing,
+			"violations_by_key_all":      viol,
+			"deadlocks_by_position":      deadlockWhere,
+			"race_reports":               len(rn.races),
+			"race_signatures":            raceSigs,
+			"exhaustive_scope":           "the det product over the small mixes (all combinations listed in the header); jit repetitions and real-resource mixes are samples",
+			"nontermination_decided_by":  "Go runtime deadlock abort in timer-free children; structural wait-for cycle in the dump for tcp/fd/nested mixes; watchdog alone = inconclusive",
 		},
 	}, []string{
 		"Stop positions are realised by parking Run's goroutine at H1 hook points / in a wrapper's Close until every Stop caller is parked inside Stop (goroutine states), i.e. only interleavings the program can have",
@@ -602,6 +672,23 @@ func main() {
 		"HashMap elements are supplied by the configuration, IncMap elements are created by the fill function; both must be closed exactly once",
 		"a section panic is not one of the statement's end causes; for it only Stop-returns and Close counts are judged (Run propagates the panic)",
 	})
+}
+
+// nestedLimit: label boundaries (each at most one 5 ms input timeout apart) a nested context may pass while the outer
+// cleanup waits in the nested resource's Close before the check says Close never asked it to stop. A counted-event
+// criterion evaluated when the child gives up waiting.
+const nestedLimit = 400
+
+var nestedRe = regexp.MustCompile(`NESTED-BOUNDARIES-AFTER-CLOSE=(\d+)`)
+
+func nestedBoundaries(dump string) int {
+	m := nestedRe.FindStringSubmatch(dump)
+	if m == nil {
+		return 0
+	}
+	n := 0
+	fmt.Sscan(m[1], &n)
+	return n
 }
 
 func crashLine(out string) string {
@@ -637,6 +724,7 @@ func replay(r *common.Run, rn *runner, exe, raceExe string) {
 		if runState {
 			r.Report(rep.Key, "stored race report is between Run and Stop: "+sig, map[string]any{"report": rep.Witness.Report})
 		}
+		os.RemoveAll(rn.dir)
 		r.Finish(common.Coverage{Evaluations: 1, DistinctNontrivial: 1, Rule: "replay of a stored race report"}, nil)
 		return
 	}
@@ -674,5 +762,6 @@ func replay(r *common.Run, rn *runner, exe, raceExe string) {
 			}
 		}
 	}
+	os.RemoveAll(rn.dir)
 	r.Finish(common.Coverage{Evaluations: len(rn.outcomes), DistinctNontrivial: 1, Rule: "replay of one stored scenario"}, nil)
 }
